@@ -12,7 +12,7 @@ Theorem handle_mon r : mon_C20 r (handle r) = true.
 Proof.
   unfold mon_C20, handle. rewrite named_host_spec.
   destruct (s_tls r) as [[n|]|]; try reflexivity.
-  - destruct (spec_host r) as [h|]; [|reflexivity].
+  - destruct (spec_host r) as [h|]; [|cbn [implb]; destruct (s_premarked r); reflexivity].
     destruct (eq_ci h (auth_host n)); reflexivity.
   - destruct (spec_host r); reflexivity.
 Qed.
@@ -24,7 +24,7 @@ Theorem handle_forward_sound r v :
   exists n, s_tls r = Some (Some n) /\
     match spec_host r with
     | Some h => eq_ci h (auth_host n) = true /\ v = true
-    | None => v = false
+    | None => v = s_premarked r
     end.
 Proof.
   unfold handle. rewrite named_host_spec. destruct (s_tls r) as [[n|]|]; intros H; try discriminate; auto.
@@ -90,4 +90,14 @@ Proof.
   destruct h as [|c t]; [contradiction|]. cbn [append]. rewrite Hb. split.
   - exact (until_char_app colon (String c t) port Hcol).
   - apply until_char_none. exact Hcol.
+Qed.
+
+(* a flag that is already set when the request arrives decides nothing for a request that names a host *)
+Theorem handle_premarked_irrelevant (h2 : bool) (hh ua : option string) tls b1 b2 :
+  (if h2 then orelse ua hh else hh) <> None ->
+  handle (mkSreq h2 hh ua tls b1) = handle (mkSreq h2 hh ua tls b2).
+Proof.
+  intros Hn. unfold handle, named_host. cbn [s_tls s_h2 s_uri_auth s_hdr_host s_premarked].
+  destruct tls as [[n|]|]; try reflexivity.
+  destruct (if h2 then orelse ua hh else hh); [reflexivity|contradiction].
 Qed.
